@@ -148,7 +148,8 @@ type inflightRec struct {
 	src   string
 	opts  Opts
 	start time.Time
-	tid   int // OS thread the compiling goroutine is locked to
+	tid   int    // OS thread the compiling goroutine is locked to
+	seq   uint64 // distinguishes compilations (the address of a freed record may be reused by a later one)
 }
 
 // threadCPU is the user+system CPU time the OS thread tid has used so far (10 ms resolution), read
@@ -175,6 +176,7 @@ func threadCPU(tid int) time.Duration {
 }
 
 var inflight atomic.Pointer[inflightRec]
+var inflightSeq atomic.Uint64
 
 const hangLimit = 15 * time.Second
 const memLimit = 6 << 30
@@ -187,7 +189,7 @@ type HangCase struct {
 
 func startWatchdog() {
 	go func() {
-		var seen *inflightRec
+		var seen uint64
 		var seenCPU time.Duration
 		for {
 			time.Sleep(250 * time.Millisecond)
@@ -195,8 +197,8 @@ func startWatchdog() {
 			if r == nil {
 				continue
 			}
-			if r != seen { // first sight of this compilation (at most 250 ms after its start)
-				seen, seenCPU = r, threadCPU(r.tid)
+			if r.seq != seen { // first sight of this compilation (at most 250 ms after its start)
+				seen, seenCPU = r.seq, threadCPU(r.tid)
 				continue
 			}
 			why := ""
@@ -256,7 +258,7 @@ func Compile(src string, o Opts) (res Result) {
 		runtime.LockOSThread()
 		defer runtime.UnlockOSThread()
 		tid := syscall.Gettid()
-		inflight.Store(&inflightRec{src: src, opts: o, start: time.Now(), tid: tid})
+		inflight.Store(&inflightRec{src: src, opts: o, start: time.Now(), tid: tid, seq: inflightSeq.Add(1)})
 		defer inflight.Store(nil)
 	}
 	setBudget(int64(4*len(src) + 256))
